@@ -113,10 +113,48 @@ def correspondence(ctx):
                     ctx.fail("a truncated compressed file was read without error",
                              {"cells": cells, "file": G.hex(), "n": n}, {"read": d[1]})
 
+        # large compressed files: size-dependent reader/writer paths (buffer sizes, bulk inflate thresholds) only
+        # show on files above common thresholds (64 KiB, 1 MiB, 4 MiB). Incompressible float64 samples; offsets: the
+        # last 48 bytes (gzip trailer: CRC32 + ISIZE), around every power of two >= 4 KiB, and random ones.
+        import datetime
+        import numpy as np
+        from bermuda import CumulativeCell, Metadata
+        nrng = np.random.default_rng(rng.randrange(2 ** 32))
+        sizes = [(3, 4000), (21, 10000)] + ([(40, 14000)] if ctx.thorough else [])
+        for ncell, nsamp in sizes:
+            bcells = [CumulativeCell(period_start=datetime.date(2020, 1, 1), period_end=datetime.date(2020, 12, 31),
+                                     evaluation_date=datetime.date(2020, 12, 31) + datetime.timedelta(days=31 * k),
+                                     values={"paid_loss": nrng.random(nsamp)}, metadata=Metadata())
+                      for k in range(ncell)]
+            st, G = xcall(write_file, Triangle(bcells), scratch.path(".tribc"), compress=True)
+            if st != "ok":
+                ctx.fail("to_binary(compress=True) raised on a large triangle", {"cells": ncell, "samples": nsamp}, {"error": G})
+                continue
+            L = len(G)
+            ctx.case(digest=f"gzbig-{ncell}-{nsamp}-{L}", nontrivial=True,
+                     sample={"op": "large-tribc", "cells": ncell, "samples": nsamp, "bytes": L})
+            ctx.count(f"files/tribc-large/bytes>={1 << (L.bit_length() - 1)}")
+            offs = set(range(max(0, L - 48), L))
+            k = 12
+            while (1 << k) < L:
+                offs.update(o for o in ((1 << k) - 1, 1 << k, (1 << k) + 1) if 0 <= o < L)
+                k += 1
+            offs.update(rng.randrange(L) for _ in range(40 if ctx.thorough else 12))
+            for n in sorted(offs):
+                d = read_prefix(pathc, G, n) if n % 2 else read_prefix(pathc, G, n, compress=True)
+                ctx.case(digest=None, nontrivial=False)
+                if d[0] == "err":
+                    ctx.count(f"tribc-large/raised/{d[1]}")
+                else:
+                    ctx.fail("a truncated compressed file was read without error",
+                             {"cells": ncell, "samples": nsamp, "seed": "large-tribc stream", "bytes": L, "n": n},
+                             {"read_cells": len(d[1]) if isinstance(d[1], list) else d[1]})
+
 
 RULE = ("small triangles over the C05 lattice (all three cell classes, 0-3 slices, strings incl. non-ASCII, every "
         "value kind, arrays, a few files with > 136 keys i.e. with the placeholder pool slot), written by to_binary; "
-        "EVERY byte offset 0 <= n < len(file) is a case; compressed files: every offset. evaluations = truncations; "
+        "EVERY byte offset 0 <= n < len(file) is a case; compressed files: every offset; plus large (> 64 KiB, > 1 MiB) "
+        "compressed files of incompressible samples torn in the gzip trailer, around every power of two and at random offsets. evaluations = truncations; "
         "distinct = distinct files; non-trivial = file holds at least one cell")
 
 if __name__ == "__main__":
